@@ -114,7 +114,7 @@ def run_tlc(module, cfg, env=None, workers=1, xmx="1500m", timeout=1800, extra=N
     shutil.rmtree(meta, ignore_errors=True)
     os.makedirs(meta, exist_ok=True)
     cmd = ["java", "-XX:+UseParallelGC", f"-XX:ParallelGCThreads={gc_threads}", f"-Xmx{xmx}", f"-Xss{xss}",
-           "-cp", TLA_CP, "tlc2.TLC", "-workers", str(workers), "-metadir", meta, "-cleanup",
+           f"-Djava.io.tmpdir={meta}", "-cp", TLA_CP, "tlc2.TLC", "-workers", str(workers), "-metadir", meta, "-cleanup",
            "-noGenerateSpecTE", "-config", cfg]
     if simulate:
         cmd += ["-simulate", simulate]
